@@ -2,7 +2,7 @@
 import time, subprocess, tempfile, os, z3
 from . import core
 
-TIMEOUT_MS = {'quick': 20000, 'thorough': 120000}
+TIMEOUT_MS = {'quick': 40000, 'thorough': 120000}      # per query; sized so that verdicts do not flip when all cores are busy
 
 def _mk_solver(timeout_ms, tactic=True):
     if tactic:
